@@ -213,7 +213,7 @@ func (o *OvsdbServer) Transact(client *rpc2.Client, args []json.RawMessage, repl
 		}
 	}
 	transactionID := uuid.New()
-	o.processMonitors(transactionID, updates)
+	o.processMonitors(db, transactionID, updates)
 	return o.db.Commit(db, transactionID, updates)
 }
 
@@ -275,6 +275,7 @@ func (o *OvsdbServer) Monitor(client *rpc2.Client, args []json.RawMessage, reply
 	}
 	*reply = tableUpdates
 	o.monitors[client].monitors[value] = newMonitor(value, request, client)
+	o.monitors[client].monitors[value].dbName = db
 	return nil
 }
 
@@ -326,6 +327,7 @@ func (o *OvsdbServer) MonitorCond(client *rpc2.Client, args []json.RawMessage, r
 	}
 	*reply = tableUpdates
 	o.monitors[client].monitors[value] = newConditionalMonitor(value, request, client)
+	o.monitors[client].monitors[value].dbName = db
 	return nil
 }
 
@@ -377,6 +379,7 @@ func (o *OvsdbServer) MonitorCondSince(client *rpc2.Client, args []json.RawMessa
 	}
 	*reply = ovsdb.MonitorCondSinceReply{Found: false, LastTransactionID: "00000000-0000-0000-000000000000", Updates: tableUpdates}
 	o.monitors[client].monitors[value] = newConditionalSinceMonitor(value, request, client)
+	o.monitors[client].monitors[value].dbName = db
 	return nil
 }
 
@@ -413,10 +416,14 @@ func (o *OvsdbServer) Echo(client *rpc2.Client, args []interface{}, reply *[]int
 	return nil
 }
 
-func (o *OvsdbServer) processMonitors(id uuid.UUID, update database.Update) {
+func (o *OvsdbServer) processMonitors(dbName string, id uuid.UUID, update database.Update) {
 	o.monitorMutex.RLock()
 	for _, c := range o.monitors {
 		for _, m := range c.monitors {
+			if m.dbName != dbName {
+				// a monitor of another database (tables of the same name)
+				continue
+			}
 			switch m.kind {
 			case monitorKindOriginal:
 				m.Send(update)
